@@ -260,9 +260,10 @@ def patch_everywhere(old, new, prefix="tracklib"):
 
 # --------------------------------------------------------------------------
 class OutermostGuard:
-    """Wrap a set of methods of a class so that `pre(self)` runs when the
-    outermost wrapped call on an object starts and `post(self, token, method,
-    exc)` when it finishes -- the points at which a user can observe state."""
+    """Wrap a set of methods of a class so that `pre(self, method, args,
+    kwargs)` runs when the outermost wrapped call on an object starts and
+    `post(self, token, method, exc)` when it finishes -- the points at which a
+    user can observe state."""
 
     def __init__(self, cls, method_names, pre, post, name):
         self.depth = {}
@@ -283,7 +284,7 @@ class OutermostGuard:
             key = id(obj)
             d = depth.get(key, 0)
             if d == 0:
-                tok = pre(obj)
+                tok = pre(obj, mname, a, k)
             depth[key] = d + 1
             raised = None
             try:
